@@ -108,6 +108,7 @@ def run(idx: ProgramIndex, rep: Report, tier: str):
     lazy_references(idx, rep)
     residual_layout(idx, rep)
     per_member_kwargs(idx, rep)
+    member_argument_arity(idx, rep)
     rep.assume("exception safety is outside the statement: a deepcopy that raises (e.g. non-leaf cached tensors) leaves the source with nulled attributes, but then no fantasy model was created")
 
 
@@ -831,6 +832,7 @@ def fantasy_noise_kept(idx: ProgramIndex, rep: Report):
             if fwd is None:
                 continue
             honours = any(isinstance(x, ast.Compare) and isinstance(x.left, ast.Constant) and x.left.value == "noise" for x in ast.walk(fwd.node)) or \
+                any(isinstance(x, ast.Compare) and isinstance(x.left, ast.Call) and isinstance(x.left.func, ast.Attribute) and x.left.func.attr == "get" and x.left.args and const_str(x.left.args[0]) == "noise" for x in ast.walk(fwd.node)) or \
                 ("noise" in fwd.params and any(isinstance(x, ast.Compare) and isinstance(x.left, ast.Name) and x.left.id == "noise" for x in ast.walk(fwd.node)))
             if not honours:
                 continue
@@ -876,3 +878,31 @@ def per_member_kwargs(idx: ProgramIndex, rep: Report):
                     "the shared keyword dictionary is not changed inside a loop over the members" if not probs else
                     "; ".join(sorted(set(probs))) + ": every later member whose own entry is None receives the previous member's entry (fantasy models: the noise of another model)", {}, trivial=not any(isinstance(x, (ast.For, ast.While)) for x in ast.walk(fi.node)))
     rep.floor("C04-12", "list-container methods with shared keywords", n, 4)
+
+
+# ---- C04-13 --------------------------------------------------------------------------------------------------------
+def member_argument_arity(idx: ProgramIndex, rep: Report):
+    """The list containers split their arguments per member with _get_tensor_args, which yields one TUPLE per member (one entry for a
+    tensor, several for a member with several inputs), and spread it into the member's method.  That is right for methods with
+    *args (forward, __call__).  get_fantasy_model of the members takes exactly (inputs, targets): spreading `*inputs_` hands a member
+    with two inputs three positional arguments - TypeError - although the member alone fantasizes with inputs=[x, i]."""
+    rep.rule("C04-13", "a container that delegates get_fantasy_model to its members hands each member its inputs as one argument (tensor or list), not spread over the positional parameters of a method that has no *args")
+    n = 0
+    for fi in sorted(idx.all_functions(), key=lambda f: (f.module.name, f.qualname)):
+        if fi.cls is None or fi.name != "get_fantasy_model":
+            continue
+        for c in calls_in(fi.node):
+            if not (isinstance(c.func, ast.Attribute) and c.func.attr == "get_fantasy_model" and isinstance(c.func.value, ast.Name) and c.func.value.id != fi.params[0]):
+                continue
+            stars = [a for a in c.args if isinstance(a, ast.Starred)]
+            if not stars:
+                continue
+            n += 1
+            # the callee family: every get_fantasy_model in the package that a member can be
+            fixed = [f for f in idx.all_functions() if f.cls is not None and f.name == "get_fantasy_model" and f is not fi and f.node.args.vararg is None]
+            first = c.args[0]
+            ok = not (isinstance(first, ast.Starred) and fixed)
+            rep.add("C04-13", "%s:%s[member.get_fantasy_model arguments]" % (fi.module.name, fi.qualname), "%s:%d" % (fi.module.relpath, c.lineno), ok,
+                    "the member's inputs are handed over as one argument" if ok else
+                    "`%s` spreads the member's input tuple over the positional parameters of get_fantasy_model(inputs, targets) (no *args in %s): a member with several inputs (a Hadamard multitask GP, forward(x, i)) raises TypeError 'takes 3 positional arguments but 4 were given'" % (" ".join(src(c).split())[:60], ", ".join(sorted({f.cls.name for f in fixed}))[:80]), {})
+    rep.floor("C04-13", "containers delegating get_fantasy_model to members", n, 1)
